@@ -3062,7 +3062,9 @@ impl<const RICE_MAX: u32, I: SignedInteger> ToBitStream for ResidualPartition<RI
 
                 for residual in residuals {
                     let (msb, lsb) = mask(if residual.is_negative() {
-                        (((-*residual).to_u32() - 1) << 1) + 1
+                        // negate in 64 bits: -i32::MIN does not fit an i32
+                        let residual: i64 = (*residual).into();
+                        (((-residual - 1) as u32) << 1) + 1
                     } else {
                         (*residual).to_u32() << 1
                     });
